@@ -48,7 +48,7 @@ pub fn run(prop: &str, a: &Args, rep: &mut Report) {
     // every fourth full batch is also run by 8 threads at once, each on its own VMs (mon_par.rs)
     let batches = std::cell::Cell::new(0u32);
     let par_sessions = std::cell::Cell::new(0u32);
-    let max_par = if a.tier == "quick" { 3 } else { 40 };
+    let max_par = (if a.tier == "quick" { 3 } else { 40 }) * crate::mon_par::par_mult().max(1) as u32;
     let handle = |rep: &mut Report, batch: Vec<Pre>| {
         batches.set(batches.get() + 1);
         if batches.get() % 4 == 1 && batch.len() >= 128 && par_sessions.get() < max_par {
